@@ -775,6 +775,20 @@ func minLevelFor(logBound uint, nParties int) float64 {
 	return float64(logBound + uint(math.Log2(float64(nParties))))
 }
 
+// WORKALIAS control: the tail is copied from the operand instead of its aligned working version
+func (e fixEvaluator) AlignThenCopy(c0, opOut *rlwe.Ciphertext, k uint64) {
+	var tmp0 *rlwe.Ciphertext
+	if k != 1 {
+		tmp0 = c0.CopyNew()
+		e.r.MulScalar(tmp0.Value[0], k, tmp0.Value[0])
+		e.r.MulScalar(tmp0.Value[1], k, tmp0.Value[1])
+	} else {
+		tmp0 = c0
+	}
+	e.r.Add(tmp0.Value[0], opOut.Value[0], opOut.Value[0])
+	opOut.Value[1].CopyLvl(c0.Level(), c0.Value[1])
+}
+
 // INDEG control: the first two components of the input, whatever its degree
 func (e fixEvaluator) SumTwo(ctIn, opOut *rlwe.Ciphertext) {
 	e.r.Add(ctIn.Value[0], ctIn.Value[1], opOut.Value[0])
